@@ -62,7 +62,7 @@ def bulkLoad (ns : List BulkNode) (es : List BulkEdge) : Option Disk :=
                   [.manifestSwitch 0 [0] 1, .checkpoint 0 0 1, .commitTx 0],
            i2e := ns.map (fun n => ⟨n.ext, (t.getId n.label).getD 0⟩),
            segStore := [(buildForward 0 (bulkEdges ns es)).persist],
-           store := bulkStore ns es,
+           store := bulkStore ns es, storeRoot := 1,
            vecs := [] }
 
 /-- the same data through one write transaction: nodes (with their properties) first, then relationships -/
